@@ -390,12 +390,12 @@ impl VIden {
     u.fn(T, B, "to_string", ret="r", props=P, key="Iden::to_string", vpath="VIden::to_string",
          spec="ensures r@ == self.name(),", proofs={"before#1:s\n": "proof { assert(Seq::<char>::empty() + self.name() =~= self.name()); }"})
     u.fn(T, B, "quoted", ret="r", props=P, key="Iden::quoted", vpath="VIden::quoted",
-         rules=[make_r_sub("R-strfn", r"let qq: &str = std::str::from_utf8\(&byte\)\.unwrap\(\);",
-                           "let qq_s = vstr_from_utf8_arr1(&byte); let qq: &str = qq_s.as_str();"),
-                make_r_sub("R-strfn", r"\.replace\(qq, qq\.repeat\(2\)\.as_str\(\)\)", ".vreplace_s1(qq, qq.vrepeat2().as_str())"),
+         rules=[make_r_sub("R-strfn", r"let (\w+): &str = std::str::from_utf8\(&(\w+)\)\.unwrap\(\);",
+                           r"let \1_s = vstr_from_utf8_arr1(&\2); let \1: &str = \1_s.as_str();"),
+                make_r_sub("R-strfn", r"\b(\w+)\.repeat\(2\)", r"\1.vrepeat2()"), make_r_sub("R-strfn", r"\.replace\((\w+), ", r".vreplace_s1(\1, "),
                 make_r_tailbind()],
          spec="requires q.1 < 0x80,\nensures r@ == dblq(self.name(), q.1 as char),",
-         proofs={"before#1:r_\n": "proof { assert(qq@ + qq@ =~= seq![q.1 as char, q.1 as char]); }"})
+         proofs={"before#1:r_\n": "proof { assert(seq![q.1 as char] + seq![q.1 as char] =~= seq![q.1 as char, q.1 as char]); }"})
     u.fn(T, B, "prepare", props=P, key="Iden::prepare", vpath="VIden::prepare",
          rules=[r_dynw, r_fmt, r_unit_tail],
          spec="requires q.1 < 0x80,\nensures " + APP % {"w": "s"} + "\n    is_ident_tok(" + NEW % {"w": "s"} + ", self.name(), q.0 as char, q.1 as char),\n    // explicit form of the token (used by the renderers of qualified names below)\n    final(s).text() == old(s).text() + tokq(self.name(), q),",
@@ -414,12 +414,12 @@ impl VIden {
     u.fn(T, B, "to_string", ret="r", props=P, key="Iden::to_string[Alias]", vpath="Alias::to_string",
          spec="ensures r@ == self.name(),", proofs={"before#1:s\n": "proof { assert(Seq::<char>::empty() + self.name() =~= self.name()); }"})
     u.fn(T, B, "quoted", ret="r", props=P, key="Iden::quoted[Alias]", vpath="Alias::quoted",
-         rules=[make_r_sub("R-strfn", r"let qq: &str = std::str::from_utf8\(&byte\)\.unwrap\(\);",
-                           "let qq_s = vstr_from_utf8_arr1(&byte); let qq: &str = qq_s.as_str();"),
-                make_r_sub("R-strfn", r"\.replace\(qq, qq\.repeat\(2\)\.as_str\(\)\)", ".vreplace_s1(qq, qq.vrepeat2().as_str())"),
+         rules=[make_r_sub("R-strfn", r"let (\w+): &str = std::str::from_utf8\(&(\w+)\)\.unwrap\(\);",
+                           r"let \1_s = vstr_from_utf8_arr1(&\2); let \1: &str = \1_s.as_str();"),
+                make_r_sub("R-strfn", r"\b(\w+)\.repeat\(2\)", r"\1.vrepeat2()"), make_r_sub("R-strfn", r"\.replace\((\w+), ", r".vreplace_s1(\1, "),
                 make_r_tailbind()],
          spec="requires q.1 < 0x80,\nensures r@ == dblq(self.name(), q.1 as char),",
-         proofs={"before#1:r_\n": "proof { assert(qq@ + qq@ =~= seq![q.1 as char, q.1 as char]); }"})
+         proofs={"before#1:r_\n": "proof { assert(seq![q.1 as char] + seq![q.1 as char] =~= seq![q.1 as char, q.1 as char]); }"})
     u.emit("}\n")
 
     # ---- qualified names: table references and column references --------------------------------------------------------------
